@@ -108,6 +108,8 @@ pub struct SchedState {
     key: libc::pthread_key_t,
     main_done: bool,
     lonely_yields: u32,
+    directive: Vec<u8>,
+    dir_pos: usize,
 }
 
 static mut S: Option<SchedState> = None;
@@ -135,6 +137,8 @@ pub fn init(cfg: &Cfg) {
         key: 0,
         main_done: false,
         lonely_yields: 0,
+        directive: cfg.directive.clone(),
+        dir_pos: 0,
     };
     s.tasks[0].used = true;
     s.tasks[0].canon = 1;
@@ -393,7 +397,23 @@ fn decide(me: usize) -> Option<(usize, Decision)> {
     if idx >= s.horizon {
         fatal("horizon exceeded (runaway execution)");
     }
-    let choice = if idx < s.prefix.len() { s.prefix[idx] as usize } else { 0 };
+    let mut choice = if idx < s.prefix.len() { s.prefix[idx] as usize } else { 0 };
+    if s.dir_pos < s.directive.len() && idx >= s.prefix.len() {
+        // directed mode: the task that must make the next transmission / reception runs alone
+        let d = s.directive[s.dir_pos] as usize;
+        if d < s.ntasks && s.tasks[d].used && !s.tasks[d].finished {
+            match alts.iter().position(|a| *a == Alt::Run(d)) {
+                Some(i) => choice = i,
+                // waiting for something that is not a packet operation (a lock, a lazy being
+                // initialised by another task, thread start): let the others run
+                None if !matches!(s.tasks[d].pending, Op::Send { .. } | Op::Recv { .. }) => {},
+                None => fatal(&format!(
+                    "directed replay diverged at step {} of the directive: task {} cannot move ({:?}) although the model says its packet operation is enabled",
+                    s.dir_pos, d, s.tasks[d].pending
+                )),
+            }
+        }
+    }
     if choice >= alts.len() {
         fatal(&format!(
             "replay divergence at point {}: choice {} but only {} alternatives",
@@ -517,6 +537,11 @@ pub fn step_done(op: Op, res: i64) {
     // ledger update, so resolve through what is left (falls back to the raw fd tag)
     let (code, objs) = objs_of(op);
     let s = st();
+    if s.dir_pos < s.directive.len() && s.directive[s.dir_pos] as usize == me && res > 0 {
+        if matches!(op, Op::Send { .. } | Op::Recv { .. }) {
+            s.dir_pos += 1;
+        }
+    }
     s.total_steps += 1;
     s.tasks[me].steps += 1;
     let mut h = mix(s.tasks[me].hash, code);
